@@ -440,6 +440,7 @@ func registerIntrinsics(e *Engine) {
 
 	registerTimeIntrinsics(e)
 	registerMoreIntrinsics(e)
+	registerFsIntrinsics(e)
 }
 
 func argStrLoose(v value) string {
